@@ -42,6 +42,11 @@ pub trait Acc: Clone + Debug + Send + Sync + 'static {
     fn add_assign(&mut self, rhs: &Self);
     /// every observer, rendered injectively (bit patterns)
     fn queries(&self) -> Vec<String>;
+    /// the interval query at one confidence, rendered injectively (empty for types whose
+    /// interval does not go through a t / normal quantile of the register's own dof)
+    fn ci_query(&self, _k: Kind, _l: f64) -> String {
+        String::new()
+    }
     /// invariant of one register against its model (delivery order)
     fn check(&self, model: &[Obs], case: &dyn Fn() -> Value, s: &mut Sink);
     /// the type's one-shot `ci(confidence, data)` entry point on the same observations
@@ -178,6 +183,9 @@ macro_rules! mean_acc {
             fn add_assign(&mut self, rhs: &Self) {
                 *self += *rhs;
             }
+            fn ci_query(&self, k: Kind, l: f64) -> String {
+                iv_bits(&self.ci_mean(conf(k, l)))
+            }
             fn queries(&self) -> Vec<String> {
                 let mut q = vec![format!("count={}", self.sample_count())];
                 if self.sample_count() >= 1 {
@@ -263,6 +271,9 @@ macro_rules! paired_acc {
             fn add_assign(&mut self, rhs: &Self) {
                 *self += rhs.clone();
             }
+            fn ci_query(&self, k: Kind, l: f64) -> String {
+                iv_bits(&self.ci_mean(conf(k, l)))
+            }
             fn queries(&self) -> Vec<String> {
                 let mut q = vec![format!("count={}", self.sample_count())];
                 if self.sample_count() >= 1 {
@@ -346,6 +357,9 @@ macro_rules! unpaired_acc {
             }
             fn add_assign(&mut self, rhs: &Self) {
                 *self += rhs.clone();
+            }
+            fn ci_query(&self, k: Kind, l: f64) -> String {
+                iv_bits(&self.ci_mean(conf(k, l)))
             }
             fn queries(&self) -> Vec<String> {
                 let (na, nb) = (self.stats_a().sample_count(), self.stats_b().sample_count());
